@@ -283,6 +283,8 @@ def monitor_trace(t, P):
     is_h2 = t.get('kind') == 'h2'   # task level: the label's task is not the one that makes the calls
     at_call = {}          # task -> (oid, name of the step whose outcome it is waiting for)
     zero_decided = {}     # zero-wait get -> (closed, permits, step) when its try_acquire ran
+    recycling = {}        # task -> object whose Manager::recycle it is waiting for
+    cancelled_tasks = set()   # gets that were abandoned (future dropped, or a panic of the manager / a hook)
     failed_step = {}      # oid -> name of the verification step that failed (C04)
     expect_res = {}       # task -> (result code, why, name) after a failing create / post_create hook
     for i, (l, d) in enumerate(zip(t['labels'], P)):
@@ -299,6 +301,13 @@ def monitor_trace(t, P):
                 if got not in (want, 108, 109):
                     fail('C04', i, 'get of task %d: %s, it answered code %d, expected %s' % (tt, why, got - 100, wname))
                 del expect_res[tt]
+        if l[0] == 2 and l[2] != 0 and i > 0 and l[1] < len(P[i - 1]['tasks']) and P[i - 1]['tasks'][l[1]] == 30 \
+                and l[1] in recycling:
+            failed_step[recycling[l[1]]] = 'recycle check'
+        if l[0] == 3:
+            cancelled_tasks.add(l[1])
+        if l[0] == 2 and l[2] == 2:
+            cancelled_tasks.add(l[1])
         if l[0] == 2 and l[1] in at_call:
             # the manager / hook answers: a failure or a panic ends the verification of this object
             oid_c, name_c = at_call.pop(l[1])
@@ -332,6 +341,9 @@ def monitor_trace(t, P):
                 # unless the pool itself is gone
                 if not pool_dropped and tr.detached[e[1]] != 1 and e[1] not in tr.removed:
                     fail('C09', i, 'object %d destroyed by the pool with %d detach calls' % (e[1], tr.detached[e[1]]))
+                    if l[0] in (1, 3) and l[1] in cancelled_tasks and not is_h2:
+                        fail('C03', i, 'the abandoned get of task %d dropped object %d with %d detach calls' % (
+                            l[1], e[1], tr.detached[e[1]]))
                     if l[0] == 1 and l[1] in close_tasks and not is_h2:
                         fail('C06', i, 'close() released idle object %d with %d detach calls' % (e[1], tr.detached[e[1]]))
             elif k == 4:
@@ -373,6 +385,7 @@ def monitor_trace(t, P):
                 if since.get(oid) is None:
                     since[oid] = []
                 since[oid].append(('recycle', 0))
+                recycling[e[4]] = oid
                 if oid in failed_step:
                     fail('C04', i, 'recycle() called on object %d after its %s failed' % (oid, failed_step[oid]))
                 if not is_h2:
@@ -476,6 +489,10 @@ def monitor_trace(t, P):
                 fail('C04', i, 'get of task %d returned Timeout(Recycle)' % tt)
             if h2 and c == 107:
                 fail('C10', i, 'NoRuntimeSpecified although the pool has a runtime (task %d)' % tt)
+            if c == 101 and w_ == 0:
+                fail('C10', i, 'task %d answered Timeout(Wait) although no wait timeout applies to it' % tt)
+            if c == 102 and c_ == 0:
+                fail('C10', i, 'task %d answered Timeout(Create) although no create timeout applies to it' % tt)
             if w_ == 1 and c in (3, 4):
                 fail('C10', i, 'get with a zero wait timeout is parked waiting for a slot (task %d)' % tt)
             # a zero wait timeout is decided by one try_acquire: what the semaphore looked like at that step
